@@ -14,6 +14,10 @@ for d in sorted(glob.glob(os.path.join(os.path.dirname(__file__), "..", "seeded"
     first = "caught" if fr["exit"] == 1 else ("harness error" if fr["exit"] == 2 else "missed")
     cur = m.get("current_run_of_check", {})
     now = "caught" if cur.get("detected") else "NOT caught"
+    if m.get("obsolete"):
+        now = "no longer a violation (neutralised by a later repair)"
+    elif m.get("outside_bounds") and not cur.get("detected"):
+        now = "NOT caught (outside the bounds, see below)"
     if cur.get("by_check") and cur["by_check"] != m["property"]:
         now += f" (by {cur['by_check']})"
     obl = ", ".join(sorted({o.split(":")[-1].split(".")[-1][:40] for o in cur.get("violated_obligations", [])})[:3])
